@@ -253,6 +253,7 @@ pub struct Core {
     pub viols: Vec<Viol>,
     pub actions_done: Vec<bool>,
     pub killed_at: Option<u64>,
+    pub killed2_at: Option<u64>,
     pub end_t: u64,
     pub hit_limit: bool,
     pub log_fa: bool,
@@ -361,6 +362,8 @@ pub fn build<P: Pred>(s: &Scn, oracles: Oracles) -> World<P> {
         let period = (frame_ns as f64 * (1.0 + cfg.skew)) as u64;
         let mut game = Game::new();
         game.keep = s.keep_frames;
+        game.save_checksum = !s.no_checksum;
+        game.strict_cells = oracles.c02;
         if let Some((d, f)) = s.diverge {
             if d == pi {
                 game.diverge_from = Some(f);
@@ -388,6 +391,8 @@ pub fn build<P: Pred>(s: &Scn, oracles: Oracles) -> World<P> {
         let first = T0 + rng.below(frame_ns);
         let mut game = Game::new();
         game.keep = s.keep_frames;
+        game.save_checksum = !s.no_checksum;
+        game.strict_cells = oracles.c02;
         let idx = nodes.len();
         let cfg = NodeCfg { pauses: sp.pauses.clone(), drain: sp.drain, ..Default::default() };
         nodes.push(new_node(idx, spec_addr(si), true, Some(sp.host), vec![], game, cfg, Some(sp.clone()), rng, first, (frame_ns as f64 * sp.period_factor) as u64));
@@ -405,6 +410,7 @@ pub fn build<P: Pred>(s: &Scn, oracles: Oracles) -> World<P> {
             viols: vec![],
             actions_done: vec![false; s.actions.len()],
             killed_at: None,
+            killed2_at: None,
             end_t: T0,
             hit_limit: false,
             log_fa: false,
@@ -501,6 +507,15 @@ impl<P: Pred> World<P> {
                     continue;
                 }
             }
+            if let Some(k) = &s.kill2 {
+                if self.core.killed2_at.is_none() && t >= T0 + k.at_ms * MS {
+                    self.core.nodes[k.node].alive = false;
+                    let a = self.core.nodes[k.node].addr;
+                    self.core.net.borrow_mut().kill(a, k.pdrop, &mut kill_rng);
+                    self.core.killed2_at = Some(t);
+                    continue;
+                }
+            }
             vh::clock_set_nanos(t);
             self.core.end_t = t;
             hook(&mut self.core, ni, t);
@@ -565,7 +580,8 @@ impl<P: Pred> World<P> {
         if running && core.nodes[ni].running_at.is_none() {
             core.nodes[ni].running_at = Some(t);
         }
-        let want_advance = full_tick && start_ok && core.nodes[ni].game.frame() < s_frames && (running || matches!(core.scn.start, Start::AtMs(_)));
+        let poll_only_now = core.nodes[ni].cfg.poll_only.iter().any(|(a, b)| rel_ms >= *a && rel_ms < *b);
+        let want_advance = full_tick && !poll_only_now && start_ok && core.nodes[ni].game.frame() < s_frames && (running || matches!(core.scn.start, Start::AtMs(_)));
         if want_advance {
             let cf = sess.current_frame();
             let mut vals = vec![];
